@@ -113,6 +113,13 @@ instance : Monad P where
     | none => none
     | some (a, r) => f a r
 
+def pFlag : P Flag := fun ts => match ts with
+  | "b1" :: r => some (.bool true, r)
+  | "b0" :: r => some (.bool false, r)
+  | "o1" :: r => some (.other true, r)
+  | "o0" :: r => some (.other false, r)
+  | _ => none
+
 def pOp : P Op := fun ts => match ts with
   | "new" :: r => (do
       let n ← pOpt pInt; let a ← pOpt pVal; let p ← pOpt pVal; let ex ← pCounted pKeyVal
@@ -171,14 +178,11 @@ def pOp : P Op := fun ts => match ts with
       pure (Op.sysExtend i (.inr d) sc sy) : P Op) r
   | "ixget" :: r => (do let i ← pNat; let ix ← pIndex; pure (Op.ixGet i ix) : P Op) r
   | "ixset" :: "a" :: r => (do let i ← pNat; let ix ← pIndex; let o ← pNat; pure (Op.ixSet i ix (.inl o)) : P Op) r
+  | "df" :: r => (do let o ← pNat; pure (Op.df o) : P Op) r
+  | "sdf" :: "k" :: r => (do let i ← pNat; let k ← tok; pure (Op.sysDf i (.key k)) : P Op) r
+  | "sdf" :: "l" :: r => (do let i ← pNat; let l ← pCounted tok; pure (Op.sysDf i (.keys l)) : P Op) r
+  | "sdf" :: "f" :: r => (do let i ← pNat; let f ← pFlag; pure (Op.sysDf i (.flag f)) : P Op) r
   | "ixset" :: "s" :: r => (do let i ← pNat; let ix ← pIndex; let j ← pNat; pure (Op.ixSet i ix (.inr j)) : P Op) r
-  | _ => none
-
-def pFlag : P Flag := fun ts => match ts with
-  | "b1" :: r => some (.bool true, r)
-  | "b0" :: r => some (.bool false, r)
-  | "o1" :: r => some (.other true, r)
-  | "o0" :: r => some (.other false, r)
   | _ => none
 
 def pCallVal : P CallVal := fun ts => match ts with
@@ -244,6 +248,8 @@ def showOut : Out → String
   | .masses l => " ".intercalate (["ok", "w", toString l.length] ++ l.map showMass)
   | .nats l => " ".intercalate (["ok", "t", toString l.length] ++ l.map toString)
   | .comp c => "ok c " ++ showSym c
+  | .table cols => " ".intercalate (["ok", "d", toString cols.length] ++ (cols.map (fun c =>
+      [c.name, (match c.dt with | .str _ => "s" | d => showDType d), toString c.cells.length] ++ c.cells.map showCell)).flatten)
 
 def pairsShared (s : State) : List (Nat × Arr) → List String
   | [] => []
